@@ -269,7 +269,7 @@ func runStandin(c *Ctx, sh *shared, dir string) {
 	}()
 	dirA := filepath.Join(dir, "a")
 	a := NewNode(c.Bin, "c05sa", dirA, fmt.Sprintf("- tcp-peer:\n    address: 127.0.0.1:%d\n", port))
-	if err := a.Start(); err != nil {
+	if err := startNode(a); err != nil {
 		fail("node A does not start: "+err.Error(), "harness-start")
 		return
 	}
